@@ -65,9 +65,11 @@ static inline unsigned v_abs_step(a_word_t *state, const uint8_t *block) {
 		V_ASSERT(0, "more transform calls than any padded message of this shape has blocks");
 		return (V_MAXCALLS);
 	}
-	memcpy(v_log_st[k], state, sizeof(a_word_t) * A_STW);
+	for (size_t i = 0; i < A_STW; i++)	/* word assignments: far fewer symbolic-execution steps than memcpy */
+		v_log_st[k][i] = state[i];
 	memcpy(v_log_blk[k], block, A_BLK);
-	memcpy(state, v_out[k], sizeof(a_word_t) * A_STW);
+	for (size_t i = 0; i < A_STW; i++)
+		state[i] = v_out[k][i];
 	v_ncalls = k + 1;
 	return (k);
 }
